@@ -541,6 +541,33 @@ theorem good_inDomain {r : Res} (h : r.good) : r.inDomain := by
   | panic => trivial
   | err e => cases e <;> first | trivial | exact h
 
+theorem trimSpace_blanks {v : Bytes} (h : IsBlanks v) : trimSpace v = [] := by
+  unfold trimSpace
+  have := dropWhile_all_append (p := isSpaceB) v [] (isBlanks_space h)
+  rw [List.append_nil] at this
+  rw [this]
+  rfl
+
+theorem blanks_facts {v : Bytes} (h : IsBlanks v) (hne : v ≠ []) :
+    validName v = false ∧ numberLike v = true ∧ atoi v = 0 ∧ parseText v = some none := by
+  have hvn : validName v = false := by
+    cases v with
+    | nil => exact absurd rfl hne
+    | cons b r =>
+      have := (blank_space (h b (List.mem_cons_self ..))).2
+      simp [validName, this]
+  refine ⟨hvn, ?_, ?_, ?_⟩
+  · unfold numberLike
+    rw [hvn, trimSpace_blanks h]
+    rfl
+  · unfold atoi
+    rw [trimSpace_blanks h]
+    decide
+  · unfold parseText
+    have := lexArith_only_blanks v 0 h
+    have e : v.length + 1 = 0 + 1 + v.length := by omega
+    rw [e, this]
+
 /-! ### the main induction -/
 
 theorem good_ok (v : Int) : (Res.ok v).good := trivial
@@ -576,7 +603,7 @@ theorem eval_main : ∀ (fuel : Nat),
         rw [numberLike_name hv, if_pos rfl, atoi_name hv]
         exact ⟨rfl, Stable.refl _, fun w hw => by cases hw; decide⟩
       · rw [if_neg he] at h
-        rcases henv n with hnil | ⟨neg, k, hl⟩ | hvn | hex
+        rcases henv n with hnil | ⟨neg, k, hl⟩ | hvn | hex | hbl
         · exact absurd hnil he
         · obtain ⟨e', hp, hle⟩ := parseText_intLit hl
           rw [hp] at h
@@ -616,6 +643,22 @@ theorem eval_main : ∀ (fuel : Nat),
             rw [hnl]
             simp only [Bool.false_eq_true, if_false, deeperOf, parseValue_of_parseText hp]
             exact IH1 d' D' env e' r env' (by omega) (by omega) hwf' henv hlit' h hd
+        · obtain ⟨b1, b2, b3, b4⟩ := blanks_facts hbl he
+          rw [b4] at h
+          simp only [] at h
+          obtain ⟨a, b⟩ := pair_eq h
+          subst a b
+          cases hops with
+          | zero =>
+            rw [chase]
+            unfold finish
+            rw [numberLike_name hv, if_pos rfl, atoi_name hv]
+            exact ⟨rfl, Stable.refl _, fun w hw => by cases hw; decide⟩
+          | succ h' =>
+            rw [chase_succ, if_pos hv, if_neg he, chase_not_name _ _ _ b1]
+            unfold finish
+            rw [b2, if_pos rfl, b3]
+            exact ⟨rfl, Stable.refl _, fun w hw => by cases hw; decide⟩
     refine ⟨?_, P2⟩
     intro d D env e r env' hDd hD99 hwf henv hlit h hd
     rw [evalAt_eq]
